@@ -254,9 +254,12 @@ func init() {
 			info := f.Pkg.TypesInfo
 			swaps := 0
 			for _, lit := range allLitsIn(f.Decl.Body) {
+				if isIIFE(r.P, lit) {
+					continue // runs as part of the enclosing task, simulated there
+				}
 				hasSwap := false
 				inspect(lit.Body, func(nd ast.Node) bool {
-					if inner, ok := nd.(*ast.FuncLit); ok && inner != lit {
+					if inner, ok := nd.(*ast.FuncLit); ok && inner != lit && !isIIFE(r.P, inner) {
 						return false
 					}
 					if as, ok := nd.(*ast.AssignStmt); ok {
@@ -547,37 +550,14 @@ func init() {
 func (r *Run) checkKeepsHighestSeq(f *prog.FuncInfo, l loopInfo) {
 	info := f.Pkg.TypesInfo
 	seqNum := r.P.FuncObj("dkv/kv", "Entry.SeqNum")
-	var best types.Object
-	var guard *ast.IfStmt
-	var cand ast.Expr
-	inspect(l.Body, func(nd ast.Node) bool {
-		is, ok := nd.(*ast.IfStmt)
-		if !ok {
-			return true
-		}
-		for _, st := range is.Body.List {
-			as, ok := st.(*ast.AssignStmt)
-			if !ok || as.Tok != token.ASSIGN || len(as.Lhs) != 1 || len(as.Rhs) != 1 {
-				continue
-			}
-			obj := prog.IdentObj(info, as.Lhs[0])
-			if obj == nil || !r.exprCalls(info, is.Cond, seqNum) {
-				continue
-			}
-			best, guard, cand = obj, is, as.Rhs[0]
-		}
-		return true
-	})
+	best := r.keepBest(info, l.Body, f.Name()+":keep-highest-seq",
+		func(e ast.Expr) bool { return r.exprCalls(info, e, seqNum) },
+		func(x string) []string { return []string{x + ".SeqNum()"} },
+		"no result yet || candidate.SeqNum() > best.SeqNum()")
 	if best == nil {
 		r.Fail(f.Name()+":keep-highest-seq", l.Pos, nil, "the lookup loop neither stops at the first hit nor keeps the entry with the highest sequence number")
 		return
 	}
-	bn, cn := best.Name(), types.ExprString(cand)
-	names := map[string]string{cn + ".SeqNum()": "cand", bn + ".SeqNum()": "best", bn + " == nil": "?none", bn + " != nil": "?some"}
-	r.orderDomExpr(info, guard.Cond, f.Name()+":keep-highest-seq", names,
-		func(e odEnv) bool { return e.Rank["cand"] != e.Rank["best"] && e.Bool["?none"] != e.Bool["?some"] },
-		func(e odEnv) orderdom.Value { return orderdom.Bool(e.Bool["?none"] || e.Rank["cand"] > e.Rank["best"]) },
-		"no result yet || candidate.SeqNum() > best.SeqNum()")
 	// the running result is what the function returns after the loop
 	returned := false
 	inspect(f.Decl.Body, func(nd ast.Node) bool {
@@ -595,7 +575,7 @@ func (r *Run) checkKeepsHighestSeq(f *prog.FuncInfo, l loopInfo) {
 func (r *Run) exprCallsShallow(info *types.Info, body ast.Node, fn *types.Func) bool {
 	found := false
 	inspect(body, func(nd ast.Node) bool {
-		if lit, ok := nd.(*ast.FuncLit); ok && ast.Node(lit) != body {
+		if lit, ok := nd.(*ast.FuncLit); ok && ast.Node(lit) != body && !isIIFE(r.P, lit) {
 			return false
 		}
 		if call, ok := nd.(*ast.CallExpr); ok && r.P.CalleeFunc(info, call) == fn {
